@@ -83,8 +83,11 @@ def run_worker(cfg, ops):
         # remember a seeded hash in) and builtin objects keep an address
         # based hash even under the seeded identity hash
         cmd = setarch_prefix() + cmd
-    p = subprocess.run(cmd, input=json.dumps(job), capture_output=True,
-                       text=True, env=env, timeout=900)
+    try:
+        p = subprocess.run(cmd, input=json.dumps(job), capture_output=True,
+                           text=True, env=env, timeout=3600)
+    except subprocess.TimeoutExpired:
+        raise HarnessError("worker process exceeded its wall clock limit")
     line = [l for l in p.stdout.splitlines() if l.startswith("RESULT ")]
     if p.returncode != 0 or not line:
         raise HarnessError(f"worker failed rc={p.returncode}: "
@@ -622,6 +625,11 @@ def main():
         return explore(tier, seed, args, sw)
     except HarnessError as e:
         print(f"HARNESS-ERROR property={PROP}: {e}")
+        return report.EXIT_HARNESS
+    except Exception:  # never let a harness bug look like a verdict
+        import traceback
+        print(f"HARNESS-ERROR property={PROP}: unexpected exception\n"
+              + traceback.format_exc())
         return report.EXIT_HARNESS
 
 
